@@ -7,7 +7,6 @@ package trzsz
 
 import (
 	"bytes"
-	"encoding/json"
 	"fmt"
 	"math/rand"
 	"os"
@@ -20,7 +19,6 @@ import (
 
 func init() {
 	vRegister("c01_e2e", c01E2E)
-	vRegister("e2e_replay", e2eReplay)
 	vRegister("c01_nofile", c01Nofile)
 	vRegister("c01_resume", c01Resume)
 	vRegister("c01_process", c01Process)
@@ -166,43 +164,6 @@ func c01E2E(d *vCtx) error {
 		}
 		return vWriteJSON(d.path("details.json"), details)
 	})
-}
-
-// e2eReplay re-executes saved cases (params.cases = path of a json list of e2eCase) and writes
-// the recorded events; used by ./check <id> --replay.
-func e2eReplay(d *vCtx) error {
-	var cases []*e2eCase
-	b, err := os.ReadFile(d.pStr("cases", ""))
-	if err != nil {
-		return err
-	}
-	if err := json.Unmarshal(b, &cases); err != nil {
-		return err
-	}
-	base := e2eShmBase()
-	defer os.RemoveAll(base)
-	if err := e2eCaptureStdout(d.out); err != nil {
-		return err
-	}
-	tr, err := vNewTrace(d.path("obs.ndjson"))
-	if err != nil {
-		return err
-	}
-	var details []map[string]any
-	for _, c := range cases {
-		_, detail, err := e2eExec(c, e2eWorkDir(base, c.ID), tr, true)
-		if err != nil {
-			return err
-		}
-		detail["case"] = c
-		details = append(details, detail)
-		fmt.Fprintf(os.Stderr, "replayed case %d: %v\n", c.ID, detail)
-	}
-	d.set("runs", len(cases))
-	if err := tr.Close(); err != nil {
-		return err
-	}
-	return vWriteJSON(filepath.Join(d.out, "details.json"), details)
 }
 
 // c01Nofile: more files in one transfer than the process may hold open at once.  The soft
@@ -430,12 +391,13 @@ func c01Process(d *vCtx) error {
 				"directory": directory, "windows": false, "nfaults": 0, "stop": "none", "stopdel": false, "pause": false, "silence": false,
 				"timeout": 20, "fkind": "none", "prehs": false, "files": []any{}}, nil)
 			tr.Emit(map[string]any{"e": "ret", "run": rid, "role": "C", "res": res(cok), "hung": false, "ms": time.Since(t0).Milliseconds(),
-				"since": -1, "told": false, "msg": ""}, nil)
+				"since": -1, "told": false, "msg": "", "claims": c01Claims(!upload, shownOK, len(names), len(tops))}, nil)
 			tr.Emit(map[string]any{"e": "ret", "run": rid, "role": "V", "res": res(werr == nil && !hung), "hung": hung,
-				"ms": time.Since(t0).Milliseconds(), "since": -1, "told": false, "msg": e2eFirstLine(stderr.String())}, nil)
+				"ms": time.Since(t0).Milliseconds(), "since": -1, "told": false, "msg": e2eFirstLine(stderr.String()),
+				"claims": c01Claims(upload, shownOK, len(names), len(tops))}, nil)
 			tr.Emit(map[string]any{"e": "fs", "run": rid, "n": len(entries), "nsame": nsame, "allsame": allSame && len(entries) > 0,
 				"extra": len(extra), "touched": 0, "shown": shownOK, "nshown": len(names), "ntops": len(tops), "npresent": 0, "keptok": true,
-				"verified": 0, "mutapplied": false, "vmgrow": 0, "pdata": 0, "pkeep": 0, "dataafter": 0, "pausems": 0}, nil)
+				"verified": 0, "claimsame": allSame && len(entries) > 0, "mutapplied": false, "vmgrow": 0, "pdata": 0, "pkeep": 0, "dataafter": 0, "pausems": 0}, nil)
 			details = append(details, map[string]any{"case": map[string]any{"id": rid, "opts": map[string]any{"upload": upload, "binary": binary,
 				"directory": directory, "overwrite": overwrite}, "process": true}, "entries": entries, "extra": extra, "shown": names,
 				"server_err": e2eFirstLine(stderr.String()), "client_err": ""})
@@ -450,3 +412,11 @@ func c01Process(d *vCtx) error {
 	})
 }
 
+
+// c01Claims: the number of entries a role's success stands for (see e2eExec).
+func c01Claims(receiver, shownOK bool, nshown, ntops int) int {
+	if receiver && shownOK {
+		return nshown
+	}
+	return ntops
+}
